@@ -72,8 +72,9 @@ def make_target(tree, form, odb, second_fs=False, empty_dirs=()):
     from dvc_data.index import DataIndex, DataIndexEntry, ObjectStorage
 
     idx = DataIndex()
-    if form == "explicit":
-        for d in dirs_of(tree):
+    if form in ("explicit", "files"):
+        # "files": file entries only - the directories above them are implicit in the target
+        for d in (dirs_of(tree) if form == "explicit" else ()):
             k = tuple(d.split("/"))
             idx[k] = DataIndexEntry(key=k, meta=Meta(isdir=True), loaded=True)
         for rel, (c, ex) in tree.items():
@@ -202,8 +203,9 @@ def one_exec(prior, target, form, delete, link, missing=(), missing_dir=None, ha
             reported = {os.path.relpath(a[1], ws).replace(os.sep, "/") for a in errors if len(a) > 1 and a[1]}
             if form == "explicit":
                 for rel in unavailable:
-                    if rel not in reported and rel not in got:
-                        viol.append(("unavailable-entry-silently-skipped", f"{rel} errors={errors!r:.200}"))
+                    # (a dangling symbolic link is not the entry either)
+                    if rel not in reported and not isinstance(got.get(rel), bytes):
+                        viol.append(("unavailable-entry-silently-skipped", f"{rel} errors={errors!r:.200} link={link}"))
             for rel in set(want) - unavailable:
                 if form == "explicit" and got.get(rel) != want[rel] and delete:
                     viol.append(("available-entry-not-created-when-another-is-unavailable", rel))
@@ -274,17 +276,22 @@ def run_case(case):
     for j, target in enumerate(targets):
         td = dirs_of(target)
         kc = [k for k in (set(prior) & td) | (set(target) & pd)]
-        for form in ("explicit", "lazy"):
+        for form in ("explicit", "lazy", "files"):
             for delete in (True, False):
+                if form == "files" and not delete:
+                    continue
                 if not delete and form == "lazy" and case["tier"] != "thorough":
                     continue
-                links = case["links"]
-                for link in links + ["copy/hashless-old"]:
+                links = case["links"] if form != "files" else ["copy"]
+                for link in links + (["copy/hashless-old"] if form != "files" else []):
                     hashless = link.endswith("hashless-old")
                     if hashless and not delete:
                         continue
                     link = link.split("/")[0]
                     viol, info = one_exec(prior, target, form, delete, link, hashless=hashless)
+                    if form == "files":
+                        viol = [(f"{s_}/files-only-target", d_) for s_, d_ in viol]
+                        res["vac"]["files_only_targets"] = res["vac"].get("files_only_targets", 0) + 1
                     res["n"] += 1
                     res["trans"] += 4
                     res["vac"]["chmod_left_observed"] += info["chmod_left"]
@@ -310,15 +317,17 @@ def run_case(case):
         if not any(c == "c2" for (c, _e) in target.values()):
             continue
         for delete in (True, False):
-            viol, info = one_exec(prior, target, "explicit", delete, "copy", missing=["c2"])
+          for ulink in ("copy", "hardlink", "symlink"):
+            viol, info = one_exec(prior, target, "explicit", delete, ulink, missing=["c2"])
             res["n"] += 1
             res["trans"] += 2
             res["vac"]["unavailable_runs"] += 1
             for sig, detail in viol:
+                sig = sig + ("" if ulink == "copy" else f"/{ulink}")
                 if sig not in sigs:
                     sigs.add(sig)
                     res["viol"].append((sig, detail, {"prior": prior, "target": target, "form": "explicit",
-                                                      "delete": delete, "link": "copy", "missing": ["c2"]}))
+                                                      "delete": delete, "link": ulink, "missing": ["c2"]}))
     # a directory object that cannot be loaded
     for target in targets[:: max(1, len(targets) // 16)]:
         tops = sorted({rel.split("/")[0] for rel in target if "/" in rel})
@@ -405,8 +414,13 @@ def replay(case):
         if i1.get("snap") is not None and i2.get("snap") is not None and i1["snap"] != i2["snap"]:
             out.append(("unloadable-directory-outcome-depends-on-the-load-error-handler", ""))
         return out
-    return one_exec(fix(case["prior"]), fix(case["target"]), case["form"], case["delete"], case["link"],
-                    case.get("missing", []), case.get("missing_dir"), case.get("hashless", False))[0]
+    v = one_exec(fix(case["prior"]), fix(case["target"]), case["form"], case["delete"], case["link"],
+                 case.get("missing", []), case.get("missing_dir"), case.get("hashless", False))[0]
+    if case.get("missing") and case["link"] != "copy":
+        return [(f"{s_}/{case['link']}", d_) for s_, d_ in v]
+    if case["form"] == "files":
+        return [(f"{s_}/files-only-target", d_) for s_, d_ in v]
+    return v
 
 
 def run(ctx):
@@ -415,7 +429,7 @@ def run(ctx):
     ctx.rule = (
         f"E2 depth 1-2: every pair of {len(priors)} prior workspaces x {len(targets)} targets over paths "
         "{a, a/z, d, d/x, d/s, d/s/y} (file<->directory kind changes at depth 1 and 2, two contents, exec bit) x "
-        "target form {explicit entries, lazily loaded directory objects} x delete on/off x link type; real "
+        "target form {explicit entries, lazily loaded directory objects, file entries only (implicit parents; delete on, copy)} x delete on/off x link type; real "
         "build+md5+compare+apply, workspace walk, second compare; plus targets with an unavailable source object and lazy targets whose directory object is not in storage (workspace with / without that directory; default raising and application-installed collecting load-error handler on the index, same outcome demanded); "
         "non-trivial = non-empty, different prior and target"
     )
@@ -428,7 +442,7 @@ def run(ctx):
         "(the property demands that executable entries become executable, not that the exec bit is ever cleared)",
         "without delete only files that are neither target paths nor in the way of a target path must survive",
     ]
-    ctx.require("kind_changes", "nested_kind_changes", "exec_targets", "unavailable_runs", "unloadable_dir_runs", "special_shape_runs")
+    ctx.require("kind_changes", "nested_kind_changes", "exec_targets", "unavailable_runs", "unloadable_dir_runs", "special_shape_runs", "files_only_targets")
     cs = []
     for i in range(len(priors)):
         links = ["copy"]
